@@ -58,6 +58,7 @@ const prelude = `(set-option :produce-models true)
 `
 
 type Query struct {
+	Text   string   // pre-rendered SMT-LIB (rendered single-threaded: terms cache their text)
 	Name   string   // obligation instance name
 	Facts  []*T     // assumptions
 	Goal   *T       // to prove (negated in the query); nil for cover queries
@@ -157,6 +158,12 @@ func (q *Query) SMT() string {
 		}
 		fmt.Fprintf(&b, "(declare-fun %s (%s) %s)\n", k, strings.Join(as, " "), sig.ret)
 	}
+	if len(c.bound) > 0 && c.ufs["f!ssub"] {
+		b.WriteString("(assert (forall ((s Str) (a Int) (b Int) (i Int)) (! (=> (and (<= 0 a) (<= a b) (<= b (slen s)) (<= 0 i) (< i (- b a))) (= (sat (f!ssub s a b) i) (sat s (+ a i)))) :pattern ((sat (f!ssub s a b) i)))))\n")
+	}
+	if len(c.bound) > 0 && c.ufs["f!sconcat"] {
+		b.WriteString("(assert (forall ((s Str) (t Str) (i Int)) (! (=> (and (<= 0 i) (< i (+ (slen s) (slen t)))) (= (sat (f!sconcat s t) i) (ite (< i (slen s)) (sat s i) (sat t (- i (slen s)))))) :pattern ((sat (f!sconcat s t) i)))))\n")
+	}
 	for _, a := range q.Axioms {
 		b.WriteString(a)
 		b.WriteString("\n")
@@ -237,7 +244,11 @@ func runSolver(sp solverSpec, file string, timeoutS int, seed int) SolveResult {
 // With cross=true every solver is run and any disagreement is reported as "disagree".
 func Solve(q *Query, dir string, timeoutS int, seed int, cross bool) SolveResult {
 	file := filepath.Join(dir, smtFileName(q.Name)+".smt2")
-	if err := os.WriteFile(file, []byte(q.SMT()), 0o644); err != nil {
+	text := q.Text
+	if text == "" {
+		text = q.SMT()
+	}
+	if err := os.WriteFile(file, []byte(text), 0o644); err != nil {
 		return SolveResult{Status: "error", Raw: err.Error()}
 	}
 	if !cross {
